@@ -37,7 +37,7 @@ var GenesisWanted = []string{
 	"incentive/reimport:ok", "incentive/reimport:source:swap", "incentive/reimport:source:cdp", "incentive/reimport:source:hard",
 	"incentive/reimport:source:delegator", "incentive/reimport:with-claims", "incentive/reimport:claim-with-unsynced-indexes",
 	"incentive/reimport:claim-with-stored-reward",
-	"incentive/mutgen:valid=true", "incentive/mutgen:valid=false", "incentive/mutgen:init:ok", "incentive/mutgen:init:panic",
+	"incentive/mutgen:valid=true", "incentive/mutgen:valid=false", "incentive/mutgen:init:ok", "incentive/mutgen:init:panic", "incentive/mutgen:invalid:init:panic",
 }
 
 type GenesisHist struct {
@@ -198,7 +198,7 @@ func (w *world) coqSwapGenesis(gs inctypes.GenesisState) string {
 
 const nIncMutations = 10
 
-func (w *world) mutatedGenesis(kind, sel int, mark func(string)) (term string, valid bool, cls Class) {
+func (w *world) mutatedGenesis(kind, sel int, mark func(string)) (term string, valid bool, cls Class, name string) {
 	bctx, _ := w.ctx.CacheContext()
 	gs := incentive.ExportGenesis(bctx, w.ik)
 	st := &gs.SwapRewardState
@@ -206,7 +206,7 @@ func (w *world) mutatedGenesis(kind, sel int, mark func(string)) (term string, v
 	st.MultiRewardIndexes = append(inctypes.MultiRewardIndexes(nil), st.MultiRewardIndexes...)
 	gs.SwapClaims = append(inctypes.SwapClaims(nil), gs.SwapClaims...)
 	nt, ni, nc := len(st.AccumulationTimes), len(st.MultiRewardIndexes), len(gs.SwapClaims)
-	name := "none"
+	name = "none"
 	copyRIs := func(r inctypes.RewardIndexes) inctypes.RewardIndexes {
 		return append(inctypes.RewardIndexes(nil), r...)
 	}
@@ -307,15 +307,19 @@ func (w *world) mutatedGenesis(kind, sel int, mark func(string)) (term string, v
 	valid = gs.Validate() == nil
 	mark("incentive/mutgen:" + name + fmt.Sprintf(":valid=%v", valid))
 	mark(fmt.Sprintf("incentive/mutgen:valid=%v", valid))
+	// the real InitGenesis runs on EVERY perturbed genesis, also those Validate refuses (scratch branch,
+	// never written back, panics recovered): InitGenesis is the only gate at chain start
+	cls, _ = Atomically(w.ctx, func(ctx sdk.Context) error {
+		c2, _ := ctx.CacheContext() // never written back
+		WipeStore(c2, w.tApp.GetKVStoreKey(inctypes.StoreKey))
+		wipeIncParams(c2, w)
+		w.initIncGenesis(c2, gs)
+		return nil
+	})
 	if valid {
-		cls, _ = Atomically(w.ctx, func(ctx sdk.Context) error {
-			c2, _ := ctx.CacheContext() // never written back
-			WipeStore(c2, w.tApp.GetKVStoreKey(inctypes.StoreKey))
-			wipeIncParams(c2, w)
-			w.initIncGenesis(c2, gs)
-			return nil
-		})
 		mark("incentive/mutgen:init:" + cls.String())
+	} else {
+		mark("incentive/mutgen:invalid:init:" + cls.String())
 	}
 	return
 }
@@ -361,7 +365,7 @@ func GenesisRun(seed uint64, idx, n int, src string, cfg *histCfg, ops []op, exp
 			switch {
 			case step >= 4 && (r.Chance(1, 7) || (i >= forced && reimports == 0)):
 				o = op{Kind: "reimport"}
-			case step >= 4 && src == "swap" && r.Chance(1, 7):
+			case step >= 4 && src == "swap" && r.Chance(1, 4):
 				o = op{Kind: "mutgen", D: (idx*5 + probeNo) % nIncMutations, P: r.Intn(1 << 16)}
 				probeNo++
 			default:
@@ -371,12 +375,16 @@ func GenesisRun(seed uint64, idx, n int, src string, cfg *histCfg, ops []op, exp
 		}
 		done = append(done, o)
 		if o.Kind == "mutgen" {
-			term, valid, cls := w.mutatedGenesis(o.D, o.P, mark)
-			v, cc := int64(0), int64(-1)
+			term, valid, cls, name := w.mutatedGenesis(o.D, o.P, mark)
+			v, cc := int64(0), int64(cls)
 			if valid {
-				v, cc = 1, int64(cls)
+				v = 1
 			}
 			steps = append(steps, fmt.Sprintf("(GProbe %s [%d; %s],\n    %s)", term, v, Zi(cc), coqObs(ClassOk, prev.flat(), prev.flat())))
+			if !valid && cls != ClassPanic && out.Fail == nil {
+				out.Fail = &Failure{Step: i, Predicate: "invalid-genesis-imported:incentive:" + name, Signature: "invalid-genesis-imported:incentive:" + name,
+					Detail: fmt.Sprintf("GenesisState.Validate refuses this genesis state (perturbation %s of a real export) but InitGenesis on an emptied store imports it: %s", name, term)}
+			}
 			continue
 		}
 		if o.Kind == "reimport" {
